@@ -35,3 +35,179 @@ def _(graph: "Graph", start_vertex: "Node", dest_vertex: "Node") -> "Bool":
         invariant("not-dest", forall(lambda n: implies(n in graph and visited[n] and n not in queue, n != dest_vertex)))
         invariant("prefix", forall(lambda j: implies(0 <= j and j < _i0_0 and graph[next_v][j] in graph,
                                                      visited[graph[next_v][j]])))
+
+
+@contract("src.graph_utils.bi_reachable", pure=True)
+def _(graph: "Graph", start_vertex: "Node", dest_vertex: "Node") -> "Bool":
+    ensures("iff", result == ((start_vertex in graph and Reach(graph, start_vertex, dest_vertex)) or
+                              (dest_vertex in graph and Reach(graph, dest_vertex, start_vertex))))
+
+
+@ghost(least_fixpoint=True)
+def WReach(g: "Graph", a: "Node", b: "Node") -> "Bool":
+    """closure of the symmetric edge relation (weak connectivity) over key vertices"""
+    rule("base", forall(lambda g, n: implies(n in g, WReach(g, n, n))))
+    rule("fwd", forall(lambda g, n, m, w: implies(WReach(g, n, m) and w in g[m] and w in g, WReach(g, n, w))))
+    rule("back", forall(lambda g, n, m, w: implies(WReach(g, n, m) and w in g and m in g[w], WReach(g, n, w))))
+
+
+@contract("src.graph_utils.connected", pure=True)
+def _(graph: "Graph", start_vertex: "Node", dest_vertex: "Node") -> "Bool":
+    ensures("iff", result == (start_vertex in graph and WReach(graph, start_vertex, dest_vertex)))
+    local(queue="Seq[Node]", visited="Map[Node,Bool]")
+    with loop("0"):
+        invariant("dom", forall(lambda n: (n in visited) == (n in graph)))
+        invariant("queue-visited", forall(lambda n: implies(n in queue, n in graph and visited[n])))
+        invariant("visited-reach", forall(lambda n: implies(n in graph and visited[n], WReach(graph, start_vertex, n))))
+        invariant("closed-fwd", forall(lambda n, m: implies(
+            n in graph and visited[n] and n not in queue and m in graph[n] and m in graph, visited[m])))
+        invariant("closed-back", forall(lambda n, m: implies(
+            n in graph and visited[n] and n not in queue and m in graph and n in graph[m], visited[m])))
+        invariant("start", start_vertex in graph and visited[start_vertex])
+        invariant("not-dest", forall(lambda n: implies(n in graph and visited[n] and n not in queue, n != dest_vertex)))
+        exit_hint(induct("WReach", lambda g, a, b: implies(same(g, graph) and a == start_vertex,
+                                                           b in graph and visited[b])))
+    with loop("0.0"):
+        inherit("0", "closed-fwd", "closed-back")
+        invariant("closed-fwd", forall(lambda n, m: implies(
+            n in graph and visited[n] and n not in queue and n != next_v and m in graph[n] and m in graph, visited[m])))
+        invariant("closed-back", forall(lambda n, m: implies(
+            n in graph and visited[n] and n not in queue and n != next_v and m in graph and n in graph[m], visited[m])))
+        invariant("next", next_v in graph and visited[next_v] and next_v != dest_vertex)
+        invariant("prefix-fwd", forall(lambda j, m: implies(
+            0 <= j and j < _i0_0 and _s0_0[j] == next_v and m in graph[next_v] and m in graph, visited[m])))
+        invariant("prefix-back", forall(lambda j: implies(
+            0 <= j and j < _i0_0 and next_v in graph[_s0_0[j]], visited[_s0_0[j]])))
+    with loop("0.0.0"):
+        inherit("0.0", "prefix-fwd")
+        invariant("prefix-fwd", forall(lambda j, m: implies(
+            0 <= j and j < _i0_0 and _s0_0[j] == next_v and m in graph[next_v] and m in graph, visited[m])))
+        invariant("inner", forall(lambda k: implies(0 <= k and k < _i0_0_0 and adjs[k] in graph, visited[adjs[k]])))
+
+
+global_var("src.analysis.use_analysis.NONE_NODE", "Node")
+
+
+@contract("src.graph_utils.find_all_bi_reachable", pure=True)
+def _(graph: "Graph", vertex: "Node") -> "Set[Node]":
+    ensures("exact", forall(lambda n: (n in result) == (n in graph and (
+        (vertex in graph and Reach(graph, vertex, n)) or Reach(graph, n, vertex))),
+        triggers=[n in result, n in graph]))
+
+
+@contract("src.graph_utils.find_all_connected", pure=True)
+def _(graph: "Graph", vertex: "Node") -> "Set[Node]":
+    ensures("exact", forall(lambda n: (n in result) == (n in graph and vertex in graph and WReach(graph, vertex, n)),
+                            triggers=[n in result, n in graph]))
+
+
+@contract("src.graph_utils.none_reachable")
+def _(graph: "Graph", vertex: "Node", none_node: "Node") -> "Bool":
+    ensures("iff", result == exists(lambda n: n in graph and
+                                    ((vertex in graph and Reach(graph, vertex, n)) or Reach(graph, n, vertex)) and
+                                    (Reach(graph, n, none_node) or (none_node in graph and Reach(graph, none_node, n)))))
+
+
+@contract("src.graph_utils.none_connected")
+def _(graph: "Graph", vertex: "Node", none_node: "Node") -> "Bool":
+    ensures("iff", result == exists(lambda n: n in graph and vertex in graph and WReach(graph, vertex, n)
+                                    and WReach(graph, n, none_node)))
+
+
+# ---------------------------------------------------------------- dfs (type-inference feasibility check)
+declare_class("Edge")
+fields("Edge", target="Node")
+alias("EGraph", "Map[Node,Seq[Edge]]")
+bound(eg="EGraph")
+
+
+@ghost(least_fixpoint=True)
+def EReach(eg: "EGraph", a: "Node", b: "Node") -> "Bool":
+    """closure of the edge relation n -> e.target, e in eg[n]; targets need not be keys"""
+    rule("base", forall(lambda eg, n: EReach(eg, n, n)))
+    rule("step", forall(lambda eg, n, m, j: implies(
+        EReach(eg, n, m) and m in eg and 0 <= j and j < len(eg[m]), EReach(eg, n, eg[m][j].target))))
+
+
+@contract("src.graph_utils.dfs")
+def _(graph: "EGraph", source: "Node") -> "Set[Node]":
+    ensures("exact", forall(lambda n: (n in result) == (EReach(graph, source, n) and n != source)))
+    local(visited="Map[Node,Bool]")
+    return_hint(induct("EReach", lambda eg, a, b: implies(same(eg, graph) and a == source, visited.get(b, False))))
+
+
+@contract("src.graph_utils.dfs._dfs")
+def _(n: "Node", graph: "EGraph", visited: "Map[Node,Bool]") -> "None":
+    modifies("visited")
+    ensures("mono", forall(lambda m: implies(old(visited).get(m, False), visited.get(m, False))))
+    ensures("self", visited.get(n, False))
+    ensures("sound", forall(lambda m: implies(visited.get(m, False) and not old(visited).get(m, False),
+                                              EReach(graph, n, m))))
+    ensures("closed", forall(lambda m, j: implies(
+        visited.get(m, False) and not old(visited).get(m, False) and m in graph and 0 <= j and j < len(graph[m]),
+        visited.get(graph[m][j].target, False))))
+    with loop("0"):
+        invariant("mono", forall(lambda m: implies(old(visited).get(m, False), visited.get(m, False))))
+        invariant("self", visited.get(n, False))
+        invariant("sound", forall(lambda m: implies(visited.get(m, False) and not old(visited).get(m, False),
+                                                    EReach(graph, n, m))))
+        invariant("closed", forall(lambda m, j: implies(
+            visited.get(m, False) and not old(visited).get(m, False) and m != n and m in graph
+            and 0 <= j and j < len(graph[m]), visited.get(graph[m][j].target, False))))
+        invariant("prefix", forall(lambda j: implies(0 <= j and j < _i0, visited.get(_s0[j].target, False))))
+        # transitivity instance needed after the recursive call: EReach(n, e.target) /\ EReach(e.target, b) ==> EReach(n, b)
+        body_hint(induct("EReach", lambda eg, a, b: implies(same(eg, graph) and a == e.target, EReach(graph, n, b))))
+
+
+# ---------------------------------------------------------------- find_sources
+@ghost(least_fixpoint=True)
+def RReach(g: "Graph", a: "Node", b: "Node") -> "Bool":
+    """the same reflexive-transitive closure as Reach, generated by extension on the left
+    (lean/Reach.lean: ReflTransGen.head induction)"""
+    rule("base", forall(lambda g, n: implies(n in g, RReach(g, n, n))))
+    rule("step", forall(lambda g, a, m, b: implies(RReach(g, m, b) and a in g and m in g[a] and m in g,
+                                                   RReach(g, a, b))))
+
+
+@contract("src.graph_utils.find_sources")
+def _(graph: "Graph", vertex: "Node") -> "Seq[Node]":
+    requires("vertex-is-key", vertex in graph)
+    ensures("nodup", nodup(result))
+    ensures("exact", forall(lambda a: (a in result) == (
+        a in graph and RReach(graph, a, vertex) and not exists(lambda n: n in graph and a in graph[n]))))
+    local(sources="Seq[Node]", visited="Map[Node,Bool]", stack="Seq[Node]", s_sources="Seq[Node]")
+    with loop("0"):
+        invariant("dom", forall(lambda n: (n in visited) == (n in graph)))
+        invariant("stack", forall(lambda n: implies(n in stack, n in graph and RReach(graph, n, vertex))))
+        invariant("visited-sound", forall(lambda n: implies(n in graph and visited[n], RReach(graph, n, vertex))))
+        invariant("closed", forall(lambda n, m: implies(
+            n in graph and visited[n] and m in graph and n in graph[m], visited[m] or m in stack)))
+        invariant("start", visited[vertex] or vertex in stack)
+        invariant("nodup", nodup(sources))
+        invariant("sources", forall(lambda a: (a in sources) == (
+            a in graph and visited[a] and not exists(lambda n: n in graph and a in graph[n]))))
+        exit_hint(induct("RReach", lambda g, a, b: implies(same(g, graph) and b == vertex, a in graph and visited[a])))
+
+
+# ---------------------------------------------------------------- paths
+alias("Path", "Seq[Node]")
+bound(x="Path", y="Path", p="Path")
+
+
+@contract("src.graph_utils.find_all_paths", pure=True, trusted=True)
+def _(graph: "Graph", start: "Node", path: "Opt[Path]") -> "Seq[Path]":
+    """not verified by pyvc (bounded stand-in, see DESIGN C19); only its result type is used"""
+    ensures("nonempty", len(result) >= 1)
+
+
+@contract("src.graph_utils.find_longest_paths.exist", pure=True)
+def _(x: "Path", y: "Path") -> "Bool":
+    ensures("proper-prefix", result == (len(x) < len(y) and seq_eq(take(y, len(x)), x)))
+
+
+@contract("src.graph_utils.find_longest_paths")
+def _(graph: "Graph", vertex: "Node") -> "Seq[Path]":
+    ensures("maximal", forall(lambda x: (x in result) == (
+        x in find_all_paths(graph, vertex, None) and
+        not exists(lambda p: p in find_all_paths(graph, vertex, None) and len(x) < len(p)
+                   and seq_eq(take(p, len(x)), x)))))
